@@ -89,6 +89,28 @@ CHECKS.update({
                 note="a pure function: the weakest fit for the technique; tolerance 1e-12 relative", design="DESIGN.md 7 (C20)"),
 })
 
+ENUM_NOTE = "the bounded model enumerates argument FORMS; concrete values per form are fixed by the driver (several per form)"
+CHECKS.update({
+    "C10": dict(technique="TLC model of the table semantics (Interp.tla / MCInterp.tla) + trace validation of probe systems built from the enumerated lattice states",
+                text="Interp.tla defines a tabulated parameter as a relation (exact on grid, linear on lines, either cell diagonal inside, clamped outside, sign ignored); TLC checks GridExact, Functional, "
+                     "InRange, Clamped, SignIgnored, ConstTable on every small integer grid x half-integer query lattice. Sampled lattice states are mapped affinely to physical Source - X - ILoad probes "
+                     "(eff, vdrop, ig on six kinds, both polarities); TLC requires the solved row of X to follow its law with an admissible table value; equal-entry tables must solve like the constant.",
+                note=SOLVE_NOTE + "; well-conditioned tables only (increasing axes)", design="DESIGN.md 7 (C10)"),
+    "C11": dict(technique="TLC enumeration of constructor argument forms with the acceptance rule (Ctor.tla / MCCtor.tla) + validation of every executed case (TraceCtor.tla) + consequence clauses on solved probes",
+                text="Ctor.tla states which argument forms are rejected and which parameters are magnitudes; TLC checks that the rule implies physical parameter signs (AcceptedIsPhysical) over ~17 000 "
+                     "cases. Every case is executed against the real constructor: ValueError iff the rule rejects, stored magnitudes; accepted components are solved in probes that must show no negative "
+                     "loss, efficiency <= 100 %, no passive gain, and negative-signed arguments must behave exactly like their magnitudes.",
+                note=ENUM_NOTE, design="DESIGN.md 7 (C11)"),
+    "C13": dict(technique="TLC enumeration of TOML loader cases with the loader semantics as oracle (Toml.tla / MCToml.tla) + validation of every executed case (TraceToml.tla)",
+                text="Toml.tla gives the parameter schema of every kind and classifies a file (form of every key) as KeyError / ValueError / either / delegated to the constructor; MCToml enumerates 88 064 "
+                     "cases. Each executed case writes the TOML text, calls Kind.from_file and the constructor with the same values: exception class per the classification, and for built components equal "
+                     "payload, params()/limits() rows and solved probe.", note=ENUM_NOTE + "; quick tier: stratified sample", design="DESIGN.md 7 (C13)"),
+    "C19": dict(technique="trace validation by TLC (TraceDiag.tla) of diagrams rendered to dot source and parsed back",
+                text="For generated systems and random configurations TLC checks the rendered node / edge / cluster sets against the abstract state, the default -> kind -> name attribute precedence, cluster "
+                     "attributes, unchanged caller configuration and, for heat diagrams, labels (three significant digits of the duration-weighted loss), colour order, extremes and the legend.",
+                note="rendered through fname=*.raw (dot source), graphviz layout not exercised; component names from the generator's alphabet", design="DESIGN.md 7 (C19)"),
+})
+
 NOT_BUILT = "check not built yet in this round (framework under construction; see DESIGN.md section 13)"
 
 
